@@ -18,10 +18,10 @@ theorem takeWhile_digits {ip : Str} (h : ip.all isAsciiDigit = true) (r : Str)
   | nil =>
     cases r with
     | nil => simp
-    | cons c r' => simp [List.takeWhile, List.dropWhile, hr c r' rfl]
+    | cons c r' => simp [hr c r' rfl]
   | cons c cs ih =>
     simp only [List.all_cons, Bool.and_eq_true] at h
-    simp [List.takeWhile, List.dropWhile, h.1, ih h.2]
+    simp [h.1, ih h.2]
 
 theorem not_digit_dot : isAsciiDigit 46 = false := by decide
 
